@@ -88,6 +88,9 @@ int aln_param_init(struct aln_param **aln_param,int biotype , int n_threads, int
         if(tgpe >= 0.0){
                 ap->tgpe = tgpe;
         }
+        if(!isfinite(ap->gpo) || !isfinite(ap->gpe) || !isfinite(ap->tgpe)){
+                ERROR_MSG("Gap penalties have to be finite numbers.");
+        }
         /* LOG_MSG("%f %f %f", ap->gpo, ap->gpe, ap->tgpe); */
         *aln_param = ap;
         return OK;
